@@ -124,7 +124,8 @@ def run_check(mod, tier, seed, replay=None):
     n_hist = cfg["histories"]
     if hasattr(mod, "n_histories"):
         n_hist = min(n_hist, mod.n_histories(tier))
-    budget = cfg.get("budget_s", 1e9)
+    # VERIF_BUDGET_SCALE stretches the wall budget (self-tests that run several checks side by side on one machine)
+    budget = cfg.get("budget_s", 1e9) * float(os.environ.get("VERIF_BUDGET_SCALE", "1") or 1)
     batch = cfg.get("batch", 32)
     agg = {
         "evaluations": 0, "nontrivial": set(), "clauses": {}, "faults": {}, "probes": {},
